@@ -282,3 +282,41 @@ def translation_cache_rule(repo: Repo, rep: Report, RULE: str, which: tuple) -> 
                    "the translated algebra is reused across calls (%s): a later request with the same text is answered with an algebra resolved for other namespaces / carrying the first request's blank nodes" % "; ".join(problems), node=c)
     if n_calls == 0:
         raise AnalysisError("processor.py: no call to %s found" % "/".join(which))
+
+
+_run_base = run
+
+
+def run(repo: Repo, rep: Report) -> None:  # noqa: F811
+    _run_base(repo, rep)
+    sp = repo.mod("rdflib.plugins.sparql.sparql")
+    pm = repo.mod("rdflib.plugins.sparql.parser")
+    # ------------------------------------------------------------------ (g)
+    rep.rule("C15.g-every-declared-prefix-resolves",
+             "Prologue.bind records every (prefix, namespace) declaration of a request in a map of its own and Prologue.resolvePName answers from that map. The namespace manager it "
+             "also feeds keeps ONE prefix per namespace (a later prefix for the same namespace replaces the earlier one), so a prologue that resolves through the manager's store alone "
+             "forgets the first of two prefixes declared for one namespace: `PREFIX a: <N> PREFIX b: <N> ... a:x` raises Unknown namespace prefix", floor=2)
+    bind = sp.func("Prologue.bind")
+    res = sp.func("Prologue.resolvePName")
+    own_maps = set()
+    for st in own_nodes(bind):
+        if isinstance(st, ast.Assign) and isinstance(st.targets[0], ast.Subscript) and isinstance(st.targets[0].value, ast.Attribute) and norm(st.targets[0].value.value) == "self":
+            own_maps.add(st.targets[0].value.attr)
+    rep.ob("C15.g-every-declared-prefix-resolves", sp, "Prologue.bind", "records the declaration in a map owned by the prologue", bool(own_maps),
+           "self.%s" % sorted(own_maps)[0] if own_maps else "bind only forwards to NamespaceManager.bind(replace=True): a second prefix for the same namespace unbinds the first", node=bind)
+    reads = {a.attr for a in ast.walk(res) if isinstance(a, ast.Attribute) and norm(a.value) == "self"} & own_maps
+    rep.ob("C15.g-every-declared-prefix-resolves", sp, "Prologue.resolvePName", "resolves from that map", bool(reads) or not own_maps and False,
+           "reads self.%s" % sorted(reads)[0] if reads else "resolvePName asks only the namespace manager's store, which holds one prefix per namespace", node=res)
+
+    # ------------------------------------------------------------------ (h)
+    rep.rule("C15.h-pn-local-escapes-are-removed",
+             "the SPARQL grammar's PN_LOCAL regex accepts PN_LOCAL_ESC (`\\\\.`, `\\\\~`, ...); the element therefore carries a parse action that removes the backslash, so that `p:a\\\\.b` "
+             "and `<...a.b>` are the same IRI (the Turtle reader of the same package does this)", floor=1)
+    accepts_esc = any(isinstance(st, ast.Assign) and norm(st.targets[0]) == "PLX_re" and "PN_LOCAL_ESC_re" in norm(st.value) for st in pm.tree.body)
+    acts = [c for c in ast.walk(pm.tree) if isinstance(c, ast.Call) and isinstance(c.func, ast.Attribute) and c.func.attr in ("set_parse_action", "setParseAction", "add_parse_action", "addParseAction")
+            and norm(c.func.value) == "PN_LOCAL"]
+    if accepts_esc:
+        rep.ob("C15.h-pn-local-escapes-are-removed", pm, "<grammar>", acts[0] if acts else "PN_LOCAL has a parse action", bool(acts),
+               "escapes are processed" if acts else "PN_LOCAL accepts backslash escapes but nothing removes them: `PREFIX p: <http://e/> ... p:a\\\\.b` denotes <http://e/a\\\\.b> (with the backslash) instead of <http://e/a.b>", node=acts[0] if acts else pm.tree)
+    else:
+        rep.ob("C15.h-pn-local-escapes-are-removed", pm, "<grammar>", "PN_LOCAL does not accept escapes", True, "nothing to unescape", node=pm.tree)
